@@ -86,6 +86,20 @@ func GetVarSize(value any) int {
 				valueSize = valueLength * 4
 			case uint64, int64:
 				valueSize = valueLength * 8
+			default:
+				// Elements that are Serializable via pointer receivers
+				// ([]transaction.Attribute and alike).
+				if reflect.PointerTo(v.Type().Elem()).Implements(reflect.TypeFor[Serializable]()) {
+					for i := range valueLength {
+						e := v.Index(i)
+						if !e.CanAddr() {
+							p := reflect.New(e.Type())
+							p.Elem().Set(e)
+							e = p.Elem()
+						}
+						valueSize += GetVarSize(e.Addr().Interface())
+					}
+				}
 			}
 		}
 
